@@ -122,10 +122,15 @@ type memAcc struct {
 	salt *[nLanes + 1]uint64
 	w    map[uint64]byte
 	log  []access
+	rb   *realBack // non-nil: delegate to the real emu storage accessor (realacc.go)
 }
 
 func (m *memAcc) Read(pid vm.PID, vAddr, byteSize uint64) []byte {
 	m.log = append(m.log, access{vAddr, int(byteSize), false})
+	if m.rb != nil {
+		m.rb.touch(vAddr, byteSize)
+		return m.rb.acc.Read(pid, vAddr, byteSize)
+	}
 	out := make([]byte, byteSize)
 	for i := range out {
 		a := vAddr + uint64(i)
@@ -140,6 +145,11 @@ func (m *memAcc) Read(pid vm.PID, vAddr, byteSize uint64) []byte {
 
 func (m *memAcc) Write(pid vm.PID, vAddr uint64, data []byte) {
 	m.log = append(m.log, access{vAddr, len(data), true})
+	if m.rb != nil {
+		m.rb.touch(vAddr, uint64(len(data)))
+		m.rb.acc.Write(pid, vAddr, data)
+		return
+	}
 	if m.w == nil {
 		m.w = map[uint64]byte{}
 	}
@@ -173,6 +183,7 @@ type runner struct {
 	aluG *emu.ALUImpl
 	aluC *cdna3.ALU
 	lds  []byte
+	back *realBack
 }
 
 func newRunner() *runner {
@@ -192,6 +203,7 @@ type runResult struct {
 	stack string
 	// a VGPR above v39 was written: lane, register (strayLane < 0: none)
 	strayLane, strayReg int
+	realBad             string // real-accessor runs: a write outside the frames of the accessed pages
 }
 
 var zeroTail = make([]byte, wfLaneSize-laneBytes)
@@ -233,6 +245,14 @@ func (rn *runner) run(p *probe, s *lstate) (res runResult) {
 		}
 	}
 	rn.mem.log = nil
+	rn.mem.rb = nil
+	if p.real {
+		if rn.back == nil {
+			rn.back = newRealBack()
+		}
+		rn.mem.rb = rn.back
+		rn.back.begin(&salt, s.memW)
+	}
 	var alu emu.ALU = rn.aluG
 	if p.arch != 0 {
 		alu = rn.aluC
@@ -280,6 +300,10 @@ func (rn *runner) run(p *probe, s *lstate) (res runResult) {
 	}
 	if lds != nil {
 		o.lds = append([]byte(nil), lds...)
+	}
+	if p.real {
+		o.memW, res.realBad = rn.back.finish()
+		rn.mem.rb = nil
 	}
 	res.out = o
 	res.acc = rn.mem.log
@@ -341,13 +365,22 @@ func setAddr(p *probe, s *lstate, lane, owner int, r *vlib.PRNG) {
 			areg = p.inst.Addr.Register.RegIndex()
 		}
 		a := memBase + uint64(owner)*memStride + 0x1800 + 16*uint64(r.Intn(128))
+		if p.real {
+			a = uint64(int64(realAddr(memBase+uint64(owner)*memStride, r)) - p.desc.Offset) // the effective address is laid out
+		}
 		s.setVreg(lane, areg, uint32(a))
 		s.setVreg(lane, areg+1, uint32(a>>32))
 	case p.mem == memSAddr32:
 		if p.inst.Addr != nil && p.inst.Addr.Register != nil {
 			areg = p.inst.Addr.Register.RegIndex()
 		}
-		s.setVreg(lane, areg, uint32(uint64(owner)*memStride+0x1400+16*uint64(r.Intn(64))))
+		off := uint32(uint64(owner)*memStride + 0x1400 + 16*uint64(r.Intn(64)))
+		if base := s.sreg64(p.saddr); p.real && base >= memBase && base < memBase+0x1000 {
+			if a := int64(realAddr(memBase+uint64(owner)*memStride, r)) - p.desc.Offset; a >= int64(base) {
+				off = uint32(uint64(a) - base)
+			}
+		}
+		s.setVreg(lane, areg, off)
 	}
 }
 
